@@ -261,11 +261,51 @@ Proof.
 Qed.
 Print Assumptions C06_no_failure_terminates_partial.
 
+(* ---------- chains of ANY length, any number of chunks, any capacities >= 1, lazy or eager, directly or through
+   get_iter, a failure at ANY position of ANY plugin stage, EVERY schedule (Proof/MailboxFailChain.v) ---------- *)
+From SV Require Import Proof.MailboxFailChain.
+
+(* Chains s0 -> s1 -> ... -> s(L-1) -> caller wired exactly as ThreadedMailboxProcessor does (Model/C06Nets.v), no savers:
+   stage ft raises c while computing chunk fp (fp < N) or when its input ends (fp = N).  Every maximal run — every
+   schedule that cannot be extended — ends with all threads finished and the caller holding exactly c.  Proof: an
+   inductive invariant ties every mailbox to its sender and its reader (the box is a segment of the stream chunk 0 ..
+   chunk N-1, Stop; nothing at or after the failing stage ever sends Stop; every exception code is c); in a state where
+   nothing can run and the caller has not noticed, the no-lost-wake-up invariant lets one walk from the caller's read
+   up the chain to a thread that can run (no_deadlock); once the caller has noticed, C06_noticed_failure_shuts_down
+   finishes. *)
+Theorem C06_failure_reaches_caller_chain :
+  forall (sp : chain_spec) (ft fp c : nat),
+    valid_chain sp -> ch_nsav sp = repeat 0 (length (ch_caps sp)) ->
+    ft < length (ch_caps sp) -> fp <= ch_N sp ->
+    failure_reaches_caller (chain_net sp true (Some (ft, fp, c)) None) (chain_init sp true (Some (ft, fp, c)) None)
+                           (chain_main sp) (ch_N sp) c.
+Proof. intros sp ft fp c Hv Hns Hft Hfp. apply chain_nosav_failure_reaches_caller; auto. Qed.
+Print Assumptions C06_failure_reaches_caller_chain.
+
+(* an instance far outside what the explorer can enumerate: 6 stages, 40 chunks, mixed capacities, lazy, through
+   get_iter; stage 3 fails at chunk 17 *)
+Example C06_chain_instance_6x40 :
+  failure_reaches_caller
+    (chain_net (mkChain 40 [1; 3; 2; 1; 5; 2] [0; 0; 0; 0; 0; 0] true true) true (Some (3, 17, 11)) None)
+    (chain_init (mkChain 40 [1; 3; 2; 1; 5; 2] [0; 0; 0; 0; 0; 0] true true) true (Some (3, 17, 11)) None)
+    6 40 11.
+Proof.
+  apply (C06_failure_reaches_caller_chain (mkChain 40 [1; 3; 2; 1; 5; 2] [0; 0; 0; 0; 0; 0] true true) 3 17 11).
+  - split; [cbn; lia | split; [reflexivity|]]. cbn. intros x H. repeat (destruct H as [<-|H]; [lia|]). contradiction.
+  - reflexivity.
+  - cbn. lia.
+  - cbn. lia.
+Qed.
+
 (* ---------- full statements (for the repaired code, fx = true) ---------- *)
 
 (* chains of any length, any capacities >= 1, lazy or eager, any number of savers per mailbox: a failure at any
    position of any thread (plugin / source at chunk fp or at its end fp = N; saver at chunk fp) reaches the
-   caller as the original exception on every schedule; nothing hangs; every saver is closed and marked *)
+   caller as the original exception on every schedule; nothing hangs; every saver is closed and marked.
+   PROVED above for chains without savers (C06_failure_reaches_caller_chain: any length, N, capacities, lazy / eager,
+   any plugin stage, any position).  What this Definition adds and is NOT proved in general: savers (several
+   subscribers per mailbox, non-driving subscribers in lazy mode, failing savers, the final saver check); for those
+   see the ..._partial instance theorems (chainA / chainS / chainB) and the correspondence. *)
 Definition C06_full_failure_reaches_caller_chain : Prop :=
   forall (sp : chain_spec) (ft fp c : nat),
     valid_chain sp -> ft < chain_main sp -> fp <= ch_N sp ->
